@@ -305,21 +305,24 @@ PROPS["C14"] = dict(
 
 PROPS["C16"] = dict(
     pkg="c16", level="exploration",
-    technique="property-based testing (rapid) over generated schedules, choices, buffer bounds and crash sequences: the real generated archetypes of dqueue, loadbalancer, proxy and gcounter under the deterministic scheduler on spec-faithful environments; shcounter on real 2PC resources in real time",
+    technique="property-based testing (rapid) over generated schedules, choices, buffer bounds and crash sequences: the real generated archetypes of dqueue, loadbalancer, proxy, gcounter and nestedcrdtimpl under the deterministic scheduler on spec-faithful environments; shcounter on real 2PC resources in real time",
     level_text="dqueue (1-4 consumers, buffer 1-3): each produced item goes to exactly the consumer whose request is next in arrival order, in production order, consumed "
                "at most once, buffers within bound. loadbalancer (1-3 servers, 1-3 clients, buffer 1-3): BuffersOk, every request forwarded to one server and answered "
                "exactly once to the requesting client. proxy (1-3 servers, crash at every mayFail point, perfect FD): ProxyOK after every commit. gcounter (1-5 nodes, "
                "ANode and ANodeBench over real GCounter values, harness-scheduled merges): every read equals the increments the node has received, counters never "
-               "decrease. shcounter (1-5 nodes, real 2PC resources, LocalReplicaHandle and RPCReplicaHandle): every node's run ends with cntr = NUM_NODES. No spec assertion fails anywhere.",
-    level_note="Not covered here: shopcart, nestedcrdtimpl and replicatedkv (their CRDT value types and resource are covered by C12/C13). shcounter is real-time "
+               "decrease. nestedcrdtimpl (1-4 ACRDTResource instances, buffer 1-5, harness-played users issuing drawn sections of READ/WRITE/PRECOMMIT/COMMIT/ABORT): per-node "
+               "counts never decrease, own count = own committed increments, no count exceeds what its node committed, READ_ACK = section-start state + own writes, and all "
+               "instances hold all committed increments once nothing is in flight. shcounter (1-5 nodes, real 2PC resources, LocalReplicaHandle and RPCReplicaHandle): every node's run ends with cntr = NUM_NODES. No spec assertion fails anywhere.",
+    level_note="Not covered here: shopcart and replicatedkv (the CRDT value types and the CRDT resource they bind are covered by C12/C13). shcounter is real-time "
                "(120 s watchdog); the others are deterministic functions of the drawn schedule.",
     rule="per system: dqueue >=2 consumers and a full buffer; loadbalancer >=2 clients and a full buffer; proxy a backend crash while the proxy is working on a "
-         "request; gcounter a merge between two increments; shcounter >=2 contending nodes; distinct by rendered schedule/configuration.",
+         "request; gcounter a merge between two increments; nestedcrdtimpl a state merged while a section that later commits is open (>=2 instances); shcounter >=2 contending nodes; distinct by rendered schedule/configuration.",
     runs=[
         dict(test="TestC16DQueue", quick=dict(checks=6000, shards=4, timeout=300), thorough=dict(checks=600000, shards=16, timeout=3000)),
         dict(test="TestC16LoadBalancer", quick=dict(checks=6000, shards=4, timeout=300), thorough=dict(checks=600000, shards=16, timeout=3000)),
         dict(test="TestC16Proxy", quick=dict(checks=6000, shards=4, timeout=300), thorough=dict(checks=600000, shards=16, timeout=3000)),
         dict(test="TestC16GCounter", quick=dict(checks=6000, shards=2, timeout=300), thorough=dict(checks=400000, shards=16, timeout=3000)),
+        dict(test="TestC16NestedCRDT", quick=dict(checks=6000, shards=4, timeout=300), thorough=dict(checks=600000, shards=16, timeout=3000)),
         dict(test="TestC16ShCounter", quick=dict(checks=96, shards=4, timeout=600), thorough=dict(checks=4000, shards=16, timeout=3300)),
     ],
 )
